@@ -4,7 +4,10 @@ R37a  typestate: every BacktrackPoint (whose Drop impl panics) is consumed by co
       of a BacktrackPoint local is reachable from its creation without passing one of them.
 R37b  the public entry parse() sorts its result on every path (items sorted, as consumers assume).
 R37c  explicit panics (panic!/unreachable!/assert!) reachable from the public entry points are discharged by the audited table.
+R37d  every indexing / slicing / drain site and every unsigned subtraction in the markup crate is discharged by a derived bounds
+      fact or by an audited entry (tables/panic_audit.json, one reason per site): a NEW unguarded site is a violation.
 """
+import bounds
 import cfgutil
 import panicsurface
 from report import RuleBroken
@@ -21,7 +24,8 @@ def run(chk, F, tier):
     chk.rule("R37a", "every BacktrackPoint is committed or rolled back on every path (its Drop panics)")
     chk.rule("R37b", "parse() sorts the items on every path")
     chk.rule("R37c", "explicit panics are discharged by the audited table")
-    chk.assume("in-bounds-ness of produced ranges and the ~70 indexing/slicing sites over line arrays are value-level and NOT decided")
+    chk.assume("in-bounds-ness of the produced highlight ranges is value-level and NOT decided; the indexing/slicing/subtraction sites "
+               "are decided only as far as R37d's derived facts and audited table go (a changed expression at an audited site is not seen)")
     nbp = 0
     for b in F.bodies.values():
         if b.crate != CR or "::test" in b.id or b.kind not in ("fn", "closure"):
@@ -77,4 +81,49 @@ def run(chk, F, tier):
             "refcell", "split", "string-range", "string-insert", "string-remove", "string-truncate", "textrange-new", "rowan-offset", "rowan-range", "div", "slice-len")
     n, _, _ = panicsurface.audit(chk, F, "R37c", "C37", entries, lambda b: b.crate == CR and "::test" not in b.id, skip_kinds=skip)
     chk.floor("explicit panic sites", n, 6)
-    chk.explanation = "Typestate must-consume check for BacktrackPoint on the CFG (creation -> Drop avoiding commit/rollback), must-pass-through for sort_result, audit of explicit panics."
+    run_r37d(chk, F)
+    chk.explanation = "Typestate must-consume check for BacktrackPoint on the CFG (creation -> Drop avoiding commit/rollback), must-pass-through for sort_result, audit of explicit panics, " \
+                      "bounds/underflow audit of every index, slice, drain and unsigned subtraction in the crate."
+
+
+def run_r37d(chk, F):
+    from rules import c12c, c25c
+    n, rec, aud = c12c.bounds_audit(chk, F, "R37d", "C37", CR, "the markup crate", "the highlighter panics")
+    chk.floor("bounds-sensitive sites in the markup crate", n, 60)
+    table = panicsurface.load_table()
+    nsub = rs = au = 0
+    for bid in sorted(F.bodies):
+        b = F.bodies[bid]
+        if b.crate != CR or "::test" in bid or b.kind in ("const", "static", "promoted"):
+            continue
+        B = None
+        k = 0
+        for bi, blk in enumerate(b.blocks):
+            if blk[0]:
+                continue
+            for st in blk[1]:
+                if not (st[0] == "a" and st[2][0] == "bin" and st[2][1] in ("Sub", "SubWithOverflow")):
+                    continue
+                t = b.local_ty_str(st[1][0]) if len(st[1]) == 1 else ""
+                if not (t in ("usize", "u32", "u64") or t.startswith(("(usize", "(u32", "(u64"))):
+                    continue
+                k += 1
+                nsub += 1
+                key = "C37|%s|uint-sub#%d" % (bid, k)
+                if B is None:
+                    B = bounds.Bounds(F, b)
+                loc = b.loc(st[3] if len(st) > 3 else None)
+                why = c25c._sub_ok(B, bi, st[2][2], st[2][3])
+                if why:
+                    rs += 1
+                    chk.ok("R37d", key, {"rule": "R37d", "site": loc, "kind": "uint-sub", "verdict": "guard recognised", "reason": why})
+                elif key in table:
+                    au += 1
+                    chk.ok("R37d", key, {"rule": "R37d", "site": loc, "kind": "uint-sub", "verdict": "audited", "reason": table[key]})
+                else:
+                    chk.violation("R37d", key, "unsigned subtraction without a recognised guard (minuend >= subtrahend) or an audited entry in the "
+                                               "markup crate: for some description text it underflows -- a panic in debug builds, a wrapped length/offset "
+                                               "and an out-of-range highlight (or a slice panic) in release builds", loc, witness={"kind": "uint-sub"})
+    chk.floor("unsigned subtractions in the markup crate", nsub, 20)
+    chk.unit("unsigned subtractions discharged by a recognised guard", rs)
+    chk.unit("unsigned subtractions discharged by the audited table", au)
